@@ -40,6 +40,21 @@ TEXT = {
          "(its method, its absolute path) and to none otherwise (dispatch_first_registered); duplicates are refused with the key and change nothing; the response is the handler's or an HTTP/1.1 404, "
          "stamped with the configured server id and application/json (handle_spec). Correspondence: exhaustive tables x all requests with recording handlers.",
          "Trusted: Lean kernel; hand model of router.rs (HashMap as association list with unique keys; handlers opaque)."),
+ "C04": ("Theorems on the byte-at-a-time specification (to which every read schedule of the connection is tied by C01): at the blank line a request is rejected iff its declared length exceeds the limit, with SizeLimitExceeded(limit, declared), "
+         "by the two bytes CR LF alone (payload_iff, payload_rejected_early); every delivered body has exactly the declared length, at most the limit, for every stream from every consistent state (body_bound); a line of at most B bytes incl. CR LF is processed as that line and a longer one is rejected for its length whatever follows (line_within, line_too_long; all B > 0, instance B = 1024); "
+         "the server gives an accepted connection the limit configured at that moment (server_limit) and the 400 body contains both numbers (bad_request_reports). Correspondence at every boundary value and line lengths 1000..1100 at arbitrary window offsets.",
+         "Trusted: Lean kernel; hand model of connection.rs/server.rs checked differentially; Display texts modelled byte for byte (Display.lean) and compared with what clients receive."),
+ "C06": ("Theorems: tryWrite_spec — for ANY result of the single write call, success means the accepted bytes are exactly the next unsent bytes (nothing lost, duplicated, reordered), zero/failed write discards everything and reports closed, nothing pending gives invalid write without touching the stream; pending_iff; "
+         "history_prefix — for ANY sequence of enqueues and writes with ANY stream behaviour, accepted ++ unsent = concatenation of the serialized responses in enqueue order, so the accepted bytes are always a prefix, and pending_write holds iff they differ. Correspondence + implementation-only prefix oracle over short/interrupted/zero/failed writes.",
+         "Trusted: Lean kernel; hand model of try_write/enqueue/clear checked differentially; serialization itself is C05's subject."),
+ "C11": ("Theorems (repaired code): a read that reports ParseError leaves the parser part equal to that of a new connection with the same limit (reset_after_error, rejected_request_dropped); what a read does depends only on the parser part (read_depends_on_parser_only, proved by showing the whole input side commutes with replacing the output-side fields); hence after_error_like_new: after an error EVERY later sequence of reads gives the same outcomes, deliveries and interim responses as a new connection; server: an erroring read yields nothing, leaves no parsed request, enqueues the 400 and keeps a fresh parser. "
+         "Correspondence: error prefix x continuation x segmentation, compared with a fresh connection on the implementation alone; F1 histories as regression.",
+         "Trusted: Lean kernel; hand model checked differentially. The property was FALSE on the pinned tree (F1); the fix commit is part of /repo."),
+ "C12": ("Theorems with descriptors as opaque tokens: first_completer (a read completing r1..rm hands everything on hand, kept then new, in arrival order, to r1; the rest get none; a read completing nothing keeps all), eof_keeps, failed_read_keeps, conservation (for every error-free run: descriptors of queued requests ++ those held by the connection = all descriptors received, in arrival order — once each, none lost/duplicated/reordered), pop_moves. "
+         "Correspondence with real descriptors: identity, order, open-while-owned and closed-after-drop checked with fcntl.",
+         "Trusted: Lean kernel; File drop/from_raw_fd semantics; the scripted recv_with_fds stands for SCM_RIGHTS."),
+ "C13": ("Theorems: at the end of a header block the specification emits exactly one interim response carrying the request's version iff Expect: 100-continue was seen and 0 < Content-Length <= limit (cont_iff), nothing else ever emits one (cont_only_at_end_of_headers, body_byte_no_cont), it is produced by the blank line alone before any body byte (cont_before_body), it is a 100 with no Content-Length (cont_response); server: after a read that leaves something to write the connection waits for writability (server_switches_to_out). Tied to the connection under every schedule by C01.tryRead_refines. Correspondence incl. real sockets.",
+         "Trusted: Lean kernel; hand model checked differentially; header recognition of Expect is C15's subject."),
 }
 TECH = "Lean 4 theorems over a hand-written model + differential correspondence check (Rust harness vs compiled Lean driver)"
 
